@@ -287,8 +287,14 @@ def c09_burst(ctx, case):
 def long_case(draw):
     cplx_x = draw(st.booleans())
     n = draw(st.integers(513, 1200))
+    big = draw(st.integers(0, 14)) == 14
+    if big:
+        n = draw(st.sampled_from([8193, 10000, 16385, 4097]))        # beyond any block size a long-record path may use
     x = draw(gen.signal(dtype="complex" if cplx_x else "real", kinds=("noise", "tones", "int"), n=n))
     mode = draw(st.sampled_from(["auto", "cross_equal", "cross_shorter_y", "cross_shorter_x"]))
+    if big:
+        mode = "auto"
+        return {"x": x, "y": None, "maxlags": draw(st.integers(0, 6)), "norm": draw(st.sampled_from(["coeff", "coeff", "biased", "unbiased", None]))}
     y = None
     if mode != "auto":
         cy = draw(st.booleans())
